@@ -421,6 +421,78 @@ def relational(rep, rng, tier):
             io = getattr(sv._integrator, "options", {})
             if sv.options[key] != given[key] or sv.options[key] != frs.options[key] or (key != "method" and key in io and io[key] != given[key]):
                 viol.append((f"options-kept:{key}", f"solver built with {old_m} (atol 1e-11) given options {given}: option {key} is {sv.options[key]} (integrator: {io.get(key)}), a fresh solver has {frs.options[key]}", {"old": old_m, "new": new_m, "key": key}))
+    # arguments handed over in one dictionary object that the caller updates in place between calls (a parameter sweep, a drive
+    # value changed during stepping): every call uses the values the dictionary holds at that moment
+    for method in (("adams", "vern7", "dop853") if tier == "quick" else ("adams", "bdf", "lsoda", "dop853", "vern7", "vern9")):
+        o = {"method": method, "atol": 1e-10, "rtol": 1e-8, "progress_bar": ""}
+        Hd = qutip.QobjEvo([qutip.sigmaz(), [qutip.sigmax(), lambda t, a: a * np.cos(t)]], args={"a": 0.0})
+        try:
+            with core.time_limit(120):
+                for cls_, st_ in ((qutip.SESolver, qutip.basis(2, 0)), (qutip.MESolver, qutip.fock_dm(2, 0))):
+                    reused = cls_(Hd, options=o)
+                    d_ = {"a": 0.0}
+                    worst = 0.0
+                    for a_ in (0.5, 1.25, -0.75):
+                        d_["a"] = a_
+                        got = reused.run(st_, [0, 0.6, 1.3], args=d_).states[-1]
+                        want = cls_(Hd, options=o).run(st_, [0, 0.6, 1.3], args={"a": a_}).states[-1]
+                        worst = max(worst, (got - want).norm())
+                    rep.evaluations += 1
+                    rep.count("relational-args-dict-in-place")
+                    if worst > 2e-6:
+                        viol.append((f"schedule-dependence:args-dict-updated-in-place:{method}", f"{method} ({cls_.__name__}): runs given one args dictionary that the caller updates in place differ from fresh solvers by {worst:.2e}", {"method": method}))
+                    stp = cls_(Hd, options=o)
+                    d2 = {"a": 0.5}
+                    stp.start(st_, 0.0)
+                    s1 = stp.step(0.6, args=d2)
+                    d2["a"] = -1.0
+                    s2 = stp.step(1.3, args=d2)
+                    ref1 = cls_(Hd, options=o).run(st_, [0, 0.6], args={"a": 0.5}).states[-1]
+                    ref2 = cls_(Hd, options=o).run(ref1, [0.6, 1.3], args={"a": -1.0}).states[-1]
+                    rep.evaluations += 1
+                    if (s2 - ref2).norm() > 2e-6:
+                        viol.append((f"schedule-dependence:args-dict-updated-in-place:{method}", f"{method} ({cls_.__name__}): stepping with one args dictionary updated in place between the steps differs from the evolution with those values by {(s2 - ref2).norm():.2e}", {"method": method}))
+        except core.CaseTimeout:
+            raise
+        except Exception as e:
+            if type(e).__name__ != "IntegratorException":
+                viol.append((f"args-dict-raises:{method}", f"{type(e).__name__}: {e}"[:200], {"method": method}))
+    # problems written in SI units (frequencies of GHz, times of nanoseconds) on unevenly spaced output times: the state
+    # reported for a time is that of a fresh run to that time, for the constant-generator methods too
+    ns = 1e-9
+    Hsi = 2 * np.pi * 1e9 * (0.7 * qutip.sigmax() + 0.3 * qutip.sigmaz())
+    csi = [np.sqrt(2e8) * qutip.sigmam()]
+    sched = np.array([0.0, 0.1, 0.3, 0.35, 0.9, 1.0]) * ns
+    for method in ("diag", "adams", "vern7"):
+        for cls_, st_, kw_ in ((qutip.SESolver, qutip.basis(2, 0), {}), (qutip.MESolver, qutip.fock_dm(2, 0), {"c_ops": csi})):
+            o = {"method": method, "progress_bar": ""}
+            if method in ("adams", "vern7"):
+                o.update(atol=1e-10, rtol=1e-9, nsteps=100000)
+            if method == "krylov":
+                o.update(krylov_dim=2)
+            try:
+                with core.time_limit(120):
+                    sol = cls_(Hsi, options=o, **kw_)
+                    one = sol.run(st_, sched).states
+                    sol.start(st_, 0.0)
+                    stepped = [sol.step(t) for t in sched[1:]]
+                    worst, where = 0.0, None
+                    for k in range(1, len(sched)):
+                        fresh = cls_(Hsi, options=o, **kw_).run(st_, [0.0, sched[k]]).states[-1]
+                        for nm_, g_ in (("one run over the schedule", one[k]), ("start / step", stepped[k - 1])):
+                            e_ = (g_ - fresh).norm()
+                            if e_ > worst:
+                                worst, where = e_, (nm_, float(sched[k]))
+            except core.CaseTimeout:
+                raise
+            except Exception as e:
+                if type(e).__name__ != "IntegratorException":
+                    viol.append((f"si-units-raises:{method}", f"{type(e).__name__}: {e}"[:200], {"method": method}))
+                continue
+            rep.evaluations += 1
+            rep.count("relational-si-units")
+            if worst > 1e-5:
+                viol.append((f"schedule-dependence:si-units:{method}", f"{method} ({cls_.__name__}) on a GHz problem with output times {[round(x / ns, 3) for x in sched]} ns: {where[0]} reports at t = {where[1] / ns:.3g} ns a state {worst:.2e} away from a fresh run to that time", {"method": method}))
     # Monte-Carlo solvers: options given to an existing solver (dictionary assigned, items set) are the options its two layers
     # work with - the jump search and the ODE integrator underneath - and a run then equals that of a solver built with them
     for cls_name in ("MCSolver", "NonMarkovianMCSolver"):
